@@ -49,6 +49,9 @@ struct Interp;
 Interp * g_q = nullptr;
 void deliverListener(int cb, int key, int serial, int value, bool intact);
 bool deliverPredicate(int serial, int value, bool intact, bool hasArgs);
+// predicates count their own calls: the object handed to processIf / processUntil must be the one that is called for
+// every event of that call (state kept inside a predicate must survive from event to event)
+int g_predOwnCalls = 0;
 
 std::string makeString(int serial, int value)
 {
@@ -77,32 +80,35 @@ struct LCb : public LedgeredT<2>
 
 struct PredArgs
 {
-	bool operator() (int, const Tracked & t) const { return deliverPredicate(t.serial(), t.value, t.intact(), true); }
+	mutable int ownCalls = 0;
+	bool operator() (int, const Tracked & t) const { return (g_predOwnCalls = ++ownCalls, deliverPredicate)(t.serial(), t.value, t.intact(), true); }
 	bool operator() (const std::string & s, int v) const {
 		int serial = -1, value = -1;
 		bool ok = parseString(s, serial, value);
-		return deliverPredicate(serial, value, ok && v == value, true);
+		return (g_predOwnCalls = ++ownCalls, deliverPredicate)(serial, value, ok && v == value, true);
 	}
-	bool operator() (int, const std::unique_ptr<Tracked> & p) const { return deliverPredicate(p ? p->serial() : -1, p ? p->value : -1, p && p->intact(), true); }
-	bool operator() (const Tracked & t) const { return deliverPredicate(t.serial(), t.value, t.intact(), true); }
+	bool operator() (int, const std::unique_ptr<Tracked> & p) const { return (g_predOwnCalls = ++ownCalls, deliverPredicate)(p ? p->serial() : -1, p ? p->value : -1, p && p->intact(), true); }
+	bool operator() (const Tracked & t) const { return (g_predOwnCalls = ++ownCalls, deliverPredicate)(t.serial(), t.value, t.intact(), true); }
 };
 // a predicate that takes its arguments by value and keeps them: it owns copies, the queued event must stay intact
 struct PredByValue
 {
-	bool operator() (int, Tracked t) const { bool r = deliverPredicate(t.serial(), t.value, t.intact(), true); Tracked stolen(std::move(t)); (void)stolen; return r; }
+	mutable int ownCalls = 0;
+	bool operator() (int, Tracked t) const { bool r = (g_predOwnCalls = ++ownCalls, deliverPredicate)(t.serial(), t.value, t.intact(), true); Tracked stolen(std::move(t)); (void)stolen; return r; }
 	bool operator() (std::string s, int v) const {
 		int serial = -1, value = -1;
 		bool ok = parseString(s, serial, value);
-		bool r = deliverPredicate(serial, value, ok && v == value, true);
+		bool r = (g_predOwnCalls = ++ownCalls, deliverPredicate)(serial, value, ok && v == value, true);
 		std::string stolen(std::move(s)); (void)stolen;
 		return r;
 	}
-	bool operator() (int, const std::unique_ptr<Tracked> & p) const { return deliverPredicate(p ? p->serial() : -1, p ? p->value : -1, p && p->intact(), true); }
-	bool operator() (const Tracked & t) const { return deliverPredicate(t.serial(), t.value, t.intact(), true); }
+	bool operator() (int, const std::unique_ptr<Tracked> & p) const { return (g_predOwnCalls = ++ownCalls, deliverPredicate)(p ? p->serial() : -1, p ? p->value : -1, p && p->intact(), true); }
+	bool operator() (const Tracked & t) const { return (g_predOwnCalls = ++ownCalls, deliverPredicate)(t.serial(), t.value, t.intact(), true); }
 };
 struct PredNoArgs
 {
-	bool operator() () const { return deliverPredicate(-1, -1, true, false); }
+	mutable int ownCalls = 0;
+	bool operator() () const { return (g_predOwnCalls = ++ownCalls, deliverPredicate)(-1, -1, true, false); }
 };
 
 // ---------------------------------------------------------------- implementation back end
@@ -379,6 +385,7 @@ struct ProcFrame
 	int slot;
 	std::vector<MEvent> batch;
 	size_t pos = 0;
+	int predCallsSeen = 0;
 	Stage stage = S_APPROVED;
 	InvokeFrame inv;
 	std::vector<MEvent> leftover;
@@ -580,6 +587,10 @@ struct Interp
 			ProcFrame & f = frames[fi];
 			if(f.stage != S_NEEDPRED) finalizeCurrent(f);
 			if(failed) return false;
+			if(++f.predCallsSeen != g_predOwnCalls) {
+				fail("queue.pred.state", dom(), "the predicate object called for event number " + std::to_string(f.predCallsSeen) + " of this call counts " + std::to_string(g_predOwnCalls) + " call(s) of its own: it is not the object that was called for the earlier events (state kept inside a predicate is lost)");
+				return false;
+			}
 			if(f.pos >= f.batch.size() || f.stopped) {
 				fail("queue.pred.extra", dom(), "predicate called after the call's batch was exhausted or processUntil had stopped");
 				return false;
